@@ -30,10 +30,19 @@ func init() {
 		// the last thing that happens before the edits stop is a pod, freshly
 		// re-created and still Pending, being rejected by its node: its failure is
 		// the only event left to wake the set
-		if !r.Chance(0.4) {
+		x := r.Intn(10)
+		if x >= 7 {
 			return nil
 		}
 		a := r.Intn(8)
+		if x >= 4 {
+			// or: a pod is deleted gracefully, the controller sees it terminating and
+			// waits; the pod watch breaks, the pod is gone when it comes back: the relist
+			// reports it with a tombstone that carries the stale (terminating) copy, and
+			// that tombstone is the only wake-up there will be
+			return []Step{{K: "settle"}, {K: "podrm", A: a}, {K: "deliverall"}, {K: "worker"}, {K: "finish"}, {K: "deliverall"}, {K: "worker"}, {K: "finish"},
+				{K: "kube", A: a, B: 5}, {K: "relist", A: 0}}
+		}
 		return []Step{{K: "settle"}, {K: "podrm", A: a}, {K: "kube", A: a, B: 5}, {K: "settle", A: 1}, {K: "kube", A: a, B: 3}}
 	}}
 
@@ -170,6 +179,8 @@ func init() {
 		}
 		c.Weights["listerfault"] = 4
 		c.Weights["claimtmpl"] = 3
+		c.Weights["pvcgap"] = 4
+		c.Weights["relist"] = 5
 		c.Weights["pvcterm"] = 3
 		c.Weights["scalein"] = 8
 		c.Weights["scaleout"] = 8
@@ -242,7 +253,23 @@ func init() {
 		// two workers trimming the histories of two sets at once: the first is parked
 		// between two of its revision deletes while the second runs a whole pass
 		if len(s.Cfg.Sets) < 2 || s.Cfg.Workers < 2 || !r.Chance(0.6) {
-			return nil
+			// or: history limit 0 and a roll-out whose every reconcile dies right after
+			// its status write (before it gets to trim): nothing in memory survives, the
+			// first undisturbed reconcile of the next process has to trim
+			if !r.Chance(0.5) {
+				return nil
+			}
+			_, sc := s.getSet(0)
+			if sc == nil {
+				return nil
+			}
+			out := []Step{{K: "pause", A: 0, B: 0}, {K: "settle"}, {K: "histlimit", A: 0, B: 0}, {K: "settle"},
+				{K: "template", A: 0, B: (sc.Template + 1 + r.Intn(3)) % 4}, {K: "deliverall"}}
+			for k := 0; k < 8; k++ {
+				out = append(out, Step{K: "worker"}, Step{K: "relto", A: 0, B: 2}, Step{K: "release", A: 0}, Step{K: "crash", A: 0},
+					Step{K: "settle", A: 2})
+			}
+			return out
 		}
 		var out []Step
 		// three template flips per set (unused revisions), then the limits drop
@@ -358,11 +385,17 @@ func init() {
 		// the retry of a failed one is in flight: a pod is removed, the reconcile that
 		// should replace it fails at its first call, the retry runs part of the way,
 		// the kubelet reports on the pods in the meantime, the retry completes
-		x := r.Intn(10)
-		if x >= 7 {
+		x := r.Intn(12)
+		if x >= 10 {
 			return nil
 		}
 		a := r.Intn(8)
+		if x >= 7 {
+			// or: a gracefully deleted pod finishes terminating while the pod watch is
+			// down; the relist reports it with a tombstone carrying the stale copy
+			return []Step{{K: "settle"}, {K: "podrm", A: a}, {K: "deliverall"}, {K: "worker"}, {K: "finish"}, {K: "deliverall"}, {K: "worker"}, {K: "finish"},
+				{K: "kube", A: a, B: 5}, {K: "relist", A: 0}}
+		}
 		if x >= 4 {
 			// or: a pod loses its pod-name label; the reconcile that repairs it is
 			// parked right before the pod update while the kubelet reports on the pod
